@@ -500,6 +500,16 @@ func TestC15(t *testing.T) {
 			{Op: "rcpt", Addr: "r@x", Opts: true, OType: emb("RFC822"), ORcpt: "orig@example.org"},
 			{Op: "rcpt", Addr: "r@x", Opts: true, Notify: []string{emb("SUCCESS")}},
 		}
+		// keyword-valued arguments: also at the very start and the very end
+		// (a validator that trims or folds before it compares)
+		cases = append(cases,
+			c15Call{Op: "rcpt", Addr: "r@x", Opts: true, Notify: []string{"SUCCESS" + wd}},
+			c15Call{Op: "rcpt", Addr: "r@x", Opts: true, Notify: []string{wd + "NEVER"}},
+			c15Call{Op: "rcpt", Addr: "r@x", Opts: true, Notify: []string{"FAILURE" + wd, "DELAY"}},
+			c15Call{Op: "mail", Addr: "s@x", Opts: true, Ret: "HDRS" + wd},
+			c15Call{Op: "mail", Addr: "s@x", Opts: true, Ret: wd + "FULL"},
+			c15Call{Op: "rcpt", Addr: "r@x", Opts: true, OType: "RFC822" + wd, ORcpt: "orig@example.org"},
+		)
 		// the same inside a quoted local part, where an address scanner is in
 		// another state (quoted-pairs, a closing quote that follows)
 		embQ := func(local, dom string) string { return "\"" + local[:2] + wd + local[2:] + "\"@" + dom }
@@ -516,7 +526,14 @@ func TestC15(t *testing.T) {
 			if !mine(idx) || !complete {
 				continue
 			}
-			if !c15Words.one(t, c15Case{Caps: all, Calls: []c15Call{call, {Op: "noop"}}}) {
+			calls := []c15Call{call, {Op: "noop"}}
+			if call.Op == "rcpt" {
+				// Rcpt does not greet by itself (a Mail precedes it): without
+				// the greeting the client knows no extension and drops every
+				// option - the case would say nothing
+				calls = []c15Call{{Op: "mail", Addr: "s@x"}, call, {Op: "noop"}}
+			}
+			if !c15Words.one(t, c15Case{Caps: all, Calls: calls}) {
 				complete = false
 			}
 		}
